@@ -8,6 +8,7 @@ import os
 import time
 import struct
 try:
+    import importlib.machinery
     import importlib.util
 
     try:
